@@ -6,7 +6,7 @@ CHECK = {
     ],
     "units": [
         unit("barrier-state", "barrier", ["barrier/c10_state_test.go"], "^TestVerif_C10_",
-             quick={"checks": 3000, "shards": 1, "cap": 600, "steps": 30},
+             quick={"checks": 10000, "shards": 1, "cap": 600, "steps": 30},
              thorough={"checks": 20000, "shards": 16, "cap": 2400, "steps": 50}),
     ],
 }
